@@ -616,6 +616,56 @@ func runC20(c *engine.Ctx) {
 		}
 		c.Floor(n, 6)
 	}
+
+	// ---- R7 the owner's answer is stored before the waiting visitor handler is woken ----
+	c.Rule("R7", "HandleClient stores the client's message and transporter into the session before it signals notifyCh: the woken HandleVisitor reads both (a nil message crashes the analysis, a nil transporter loses the owner's answer)")
+	if hc := fn(c, "pkg/nathole.Controller.HandleClient"); hc != nil {
+		notifyF := field(c, "pkg/nathole", "Session", "notifyCh")
+		cmF := field(c, "pkg/nathole", "Session", "clientMsg")
+		ctF2 := field(c, "pkg/nathole", "Session", "clientTransporter")
+		k := 0
+		isNotify := func(in ssa.Instruction) bool {
+			switch x := in.(type) {
+			case *ssa.Send:
+				lf, _ := engine.LoadedField(x.Chan)
+				return lf == notifyF
+			case *ssa.Select:
+				for _, stt := range x.States {
+					if stt.Dir == types.SendOnly {
+						if lf, _ := engine.LoadedField(stt.Chan); lf == notifyF {
+							return true
+						}
+					}
+				}
+			}
+			return false
+		}
+		engine.ForEachInstr(hc, func(in ssa.Instruction) {
+			if !isNotify(in) || notifyF == nil {
+				return
+			}
+			k++
+			c.AllPaths("pkg/nathole.Controller.HandleClient>notify-after-store", engine.PathCheck{Fn: hc, Sink: engine.Is(in),
+				Event: func(x ssa.Instruction) string {
+					if st, ok := x.(*ssa.Store); ok {
+						switch lf, _ := engine.LoadedField(st.Addr); lf {
+						case cmF:
+							return "msg"
+						case ctF2:
+							return "transporter"
+						}
+					}
+					return ""
+				},
+				Pred: func(st *engine.PathState) string {
+					if !st.HasEvent("msg") || !st.HasEvent("transporter") {
+						return "the visitor handler is woken before the owner's message and transporter are stored in the session"
+					}
+					return ""
+				}}, "store, then notify")
+		})
+		c.Floor(k, 1)
+	}
 }
 
 // checkNatholeAdmission / checkNatholeExits are the C08.R4/R5 obligations re-evaluated under C20's rule R5.
